@@ -193,13 +193,19 @@ impl Scenario for Close {
                             continue;
                         }
                         v.push(json!({"who": who, "after": after, "stall": stall, "code": code}));
+                        if tier == "thorough" && !stall && after == "closeok" {
+                            v.push(json!({"who": who, "after": after, "stall": stall, "code": code, "fine": true}));
+                        }
                     }
                 }
             }
         }
         v
     }
-    fn bound(&self, tier: &str, _p: &Value) -> usize {
+    fn bound(&self, tier: &str, p: &Value) -> usize {
+        if p["fine"] == true {
+            return 2;
+        }
         if tier == "thorough" {
             3
         } else {
@@ -226,6 +232,10 @@ impl Scenario for Close {
         }
         let mut cfg = EnvConfig::default();
         cfg.deliver_cuts = true;
+        cfg.fine = p["fine"] == true;
+        if cfg.fine {
+            cfg.max_steps = 20000;
+        }
         if p["stall"] == true {
             // handshake + channel opens + consume fit; later traffic hits a stalled transport
             cfg.stall_after = Some(300);
